@@ -110,6 +110,8 @@ type Gen struct {
 	Sig     *signing.FakeBackend
 	NN      gpbft.NetworkName
 	Sign    bool
+	// Weak makes the next signed certificate carry a signer set just below a strong quorum.
+	Weak    bool
 	nextKey int
 	nextID  gpbft.ActorID
 }
@@ -227,12 +229,16 @@ func (g *Gen) Cert(instance uint64, chain *gpbft.ECChain, cur, next gpbft.PowerE
 		if scaled[i] == 0 {
 			continue
 		}
+		if g.Weak && 3*(p+scaled[i]) >= 2*T {
+			continue // stay strictly below two thirds
+		}
 		idx = append(idx, i)
 		p += scaled[i]
 		if 3*p >= 2*T {
 			break
 		}
 	}
+	g.Weak = false
 	sort.Ints(idx)
 	sigs := make([][]byte, len(idx))
 	for j, i := range idx {
